@@ -54,12 +54,12 @@ package bundle
 //@ func decodeSectionLengthsCBOR
 //@   props C05 C10
 //@   returns (sos, err)
-//@   ensures[names-distinct] err == nil ==> forall i int, j int :: 0 <= i && i < j && j < len(sos) ==> sos[i].Name != sos[j].Name
+//@   ensures[names-distinct] err == nil ==> forall i int, j int :: {sos[i], sos[j]} 0 <= i && i < j && j < len(sos) ==> sos[i].Name != sos[j].Name
 //@   ensures err == nil ==> fresh(sos)
 //@   assigns nothing
 //@   loop 0:
 //@     invariant fresh(sos) && dec != nil && dec.r != nil
-//@     invariant forall a int, b int :: 0 <= a && a < b && b < len(sos) ==> sos[a].Name != sos[b].Name
+//@     invariant forall a int, b int :: {sos[a], sos[b]} 0 <= a && a < b && b < len(sos) ==> sos[a].Name != sos[b].Name
 
 //@ func parsePrimarySection
 //@   props C05 C10
